@@ -355,7 +355,7 @@ func Main(args []string) error {
 	}
 	vod := filepath.Join(*work, "vod")
 	_ = os.RemoveAll(vod)
-	env, err := setup(vod, *work, *thorough)
+	env, err := tl.Setup(vod, *thorough)
 	if err != nil {
 		return err
 	}
